@@ -2,7 +2,7 @@
 C05 — property theorems about the model of `attribute.Set` (Model.lean), with the Spec predicates
 (Spec.lean) that the driver also evaluates on the real code's results.
 -/
-import Otel.C05.LemmasSort
+import Otel.C05.LemmasSym
 import Otel.C05.LemmasEnc
 import Otel.C05.LemmasIter
 namespace Otel.C05
@@ -75,7 +75,7 @@ private theorem nswf_fields (kvs : List KV) (filter : Option (KV → Bool)) :
     | none =>
       have hr : newSetWithFiltered kvs none =
           ⟨canon kvs, [], (dedup (sortStable kvs)).1 ++ canon kvs⟩ := by
-        simp [newSetWithFiltered, h0, hcan, goSortStable_eq_sortStable]
+        simp [newSetWithFiltered, h0, hcan, goSortStableSym_eq_sortStable]
       rw [hr]
       refine ⟨?_, ?_, hperm', (dedup (sortStable kvs)).1, by simp⟩
       · simp [keepOf, filter_true']
@@ -91,14 +91,14 @@ private theorem nswf_fields (kvs : List KV) (filter : Option (KV → Bool)) :
       · have hr : newSetWithFiltered kvs (some keep) =
             ⟨(canon kvs).filter keep, (filteredToFront keep (canon kvs)).1,
               (dedup (sortStable kvs)).1 ++ ((filteredToFront keep (canon kvs)).1 ++ (canon kvs).filter keep)⟩ := by
-          simp [newSetWithFiltered, h0, hcan, hdl, hk, goSortStable_eq_sortStable]
+          simp [newSetWithFiltered, h0, hcan, hdl, hk, goSortStableSym_eq_sortStable]
         rw [hr]
         exact ⟨rfl, hd, hall, _, rfl⟩
       · have hnil : (filteredToFront keep (canon kvs)).1 = [] :=
           List.eq_nil_of_length_eq_zero (by omega)
         have hr : newSetWithFiltered kvs (some keep) =
             ⟨(canon kvs).filter keep, [], (dedup (sortStable kvs)).1 ++ (canon kvs).filter keep⟩ := by
-          simp [newSetWithFiltered, h0, hcan, hnil, hk, goSortStable_eq_sortStable]
+          simp [newSetWithFiltered, h0, hcan, hnil, hk, goSortStableSym_eq_sortStable]
         rw [hr]
         rw [hnil] at hd hall
         exact ⟨rfl, hd, by simpa using hall, (dedup (sortStable kvs)).1, by simp⟩
@@ -424,6 +424,21 @@ theorem insertionSort_is_stable_sort (seg : List KV) :
     goInsertionSort seg = sortStable seg ∧ (seg.length ≤ 20 → goSortStable seg = goInsertionSort seg) :=
   ⟨goInsertionSort_eq_sortStable seg, goSortStable_small seg⟩
 
+/-- **`symMergeCmpFunc` is the stable merge** — with its three binary searches (the `h := (i+j)/2` loops,
+each with its own comparison), its split `start`/`end`, the exchange of the two inner blocks and
+its two guarded recursive calls as written in slices/zsortanyfunc.go: for any two sorted runs the
+result is the stable sort of their concatenation, i.e. the contract `mergeRuns` used before. -/
+theorem symMerge_is_stable_merge (a b : List KV) (ha : Sorted a) (hb : Sorted b) (f : Nat) (hf : a.length + b.length ≤ f) :
+    symMerge f a b = sortStable (a ++ b) ∧ symMerge (a.length + b.length) a b = mergeRuns a b :=
+  ⟨symMerge_spec f a b hf ha hb, symMerge_eq_mergeRuns a b ha hb⟩
+
+/-- **`slices.SortStableFunc` with nothing left to a contract** (insertion-sorted blocks of 20, merge rounds
+with `symMergeCmpFunc` itself) is the stable sort for every length; this is the function
+`NewSetWithFiltered`'s model calls. -/
+theorem sortStableFunc_sym_is_stable_sort (l : List KV) :
+    goSortStableSym l = sortStable l ∧ goSortStableSym l = goSortStable l := by
+  rw [goSortStableSym_eq_sortStable, goSortStable_eq_sortStable]; exact ⟨rfl, rfl⟩
+
 /-- the contract used for `symMergeCmpFunc` (stable merge of two sorted runs) yields the stable sort of the two runs -/
 theorem symMerge_contract_is_stable_merge (a b : List KV) (ha : Sorted a) (hb : Sorted b) :
     mergeRuns a b = sortStable (a ++ b) := by
@@ -714,6 +729,20 @@ theorem iterator_spec (s : List KV) (idx : Int) :
     simp only [h0, if_false]
     rw [e2]; simp only [Iter.next, decide_eq_false_iff_not]; omega
 
+/-- `Value.Emit` as modelled (everything but the float types) -/
+def emitModel (v : Value) : Bytes := (emitKnown v).getD []
+
+/-- **beyond STRING values the default encoding cannot be injective** (so `encode_injective_on_string_sets`
+is as far as it goes): values of other types are written by `Value.Emit` without escaping and without
+a type mark — a BOOL and the STRING `true` encode alike, and a STRINGSLICE whose JSON text contains
+`,` and `=` encodes like two STRING attributes. -/
+theorem encode_cross_type_collision_witness :
+    encode emitModel [⟨[0x6b], .bool true⟩] = encode emitModel [⟨[0x6b], .str [0x74, 0x72, 0x75, 0x65]⟩] ∧
+    encode emitModel [⟨[0x21], .strs [[0x78], [0x7a, 0x3d, 0x63]]⟩] =
+      encode emitModel [⟨[0x21], .str [0x5b, 0x22, 0x78, 0x22]⟩, ⟨[0x22, 0x7a], .str [0x63, 0x22, 0x5d]⟩] ∧
+    strictSorted [⟨[0x21], .str [0x5b, 0x22, 0x78, 0x22]⟩, ⟨[0x22, 0x7a], .str [0x63, 0x22, 0x5d]⟩] = true := by
+  decide
+
 /-! ### non-vacuity: concrete, non-trivial instances evaluated by the kernel -/
 
 /-- duplicates, unsorted input, a filter that drops a winner: set, dropped, caller's slice -/
@@ -763,5 +792,14 @@ example : escape [0x6b, 0x3d, 0x2c] = [0x6b, 0x5c, 0x3d, 0x5c, 0x2c] ∧ unescB 
 /-- the merge state machine on the empty key and an INVALID value (the seeded sentinel shape) -/
 example : mergeIterSM [⟨[], .int 1⟩, ⟨[0x62], .invalid⟩] [⟨[0x61], .bool true⟩, ⟨[0x62], .int 2⟩] =
     [⟨[], .int 1⟩, ⟨[0x61], .bool true⟩, ⟨[0x62], .invalid⟩] := by decide
+
+/-- Emit of slices: `[true false]`, `["a\"","<"]` ↦ `["a\\\"","\\u003c"]`, `[]` -/
+example : emitKnown (.bools [true, false]) = some [0x5b, 0x74, 0x72, 0x75, 0x65, 0x20, 0x66, 0x61, 0x6c, 0x73, 0x65, 0x5d] ∧
+    emitKnown (.strs [[0x61, 0x22], [0x3c]]) = some [0x5b, 0x22, 0x61, 0x5c, 0x22, 0x22, 0x2c, 0x22, 0x5c, 0x75, 0x30, 0x30, 0x33, 0x63, 0x22, 0x5d] ∧
+    emitKnown (.strs []) = some [0x5b, 0x5d] := by decide
+
+/-- symMerge on two runs with ties across them and the general (recursive) case -/
+example : symMerge 9 [⟨[1], .int 1⟩, ⟨[3], .int 2⟩, ⟨[3], .int 3⟩, ⟨[5], .int 4⟩] [⟨[0], .int 5⟩, ⟨[3], .int 6⟩, ⟨[4], .int 7⟩, ⟨[5], .int 8⟩, ⟨[6], .int 9⟩] =
+    [⟨[0], .int 5⟩, ⟨[1], .int 1⟩, ⟨[3], .int 2⟩, ⟨[3], .int 3⟩, ⟨[3], .int 6⟩, ⟨[4], .int 7⟩, ⟨[5], .int 4⟩, ⟨[5], .int 8⟩, ⟨[6], .int 9⟩] := by decide
 
 end Otel.C05
